@@ -50,12 +50,6 @@ func runCutsMode() {
 	for i := 0; i < n; i++ {
 		root := roots[i%2]
 		o := wopts{zstd: (i/2)%2 == 1, flags: pkg.FrameFlags((i / 4) % 8), desc: r.Chance(1, 4), userData: r.Intn(2)}
-		if !o.zstd && o.flags&pkg.RestartCompression != 0 {
-			// the writer panics with this combination (reported by the roundtrip mode as
-			// writer-panic-zstd.Encoder.Reset): no stream to cut, use the remaining flags
-			stats["restartcompression-without-compression-cleared"]++
-			o.flags &^= pkg.RestartCompression
-		}
 		o.frameSize = []uint{0, 0, 40, 200}[r.Intn(4)]
 		o.dictSize = []uint{0, 0, 40}[r.Intn(3)]
 		cfg := &recgen.Cfg{NoBigLens: true, MaxCalls: 5, NoFrozen: r.Bool(), DictResets: o.dictSize != 0 || o.flags&pkg.RestartDictionaries != 0}
@@ -71,11 +65,7 @@ func runCutsMode() {
 		_, res := generate(r, root, o, cfg, p)
 		if res.werr != "" {
 			stats["writer-errors"]++
-			if !o.zstd && o.flags&pkg.RestartCompression != 0 {
-				stats["writer-panic-restartcompression-none"]++
-			} else {
-				propFail("C05 writer-error case=%s %s", name, res.werr)
-			}
+			propFail("C05 writer-error case=%s %s", name, res.werr)
 			continue
 		}
 		ps := parseStream(res.stream)
